@@ -206,7 +206,7 @@ class Fn:
             if nd['c'] == 'DeclStmt':
                 for v in nd.get('vars', []):
                     defs[v['id']] = {'init': v['init'] or None, 'writes': [], 'decl': i, 'name': v['name'], 't': v['t'],
-                                     'static': v.get('static', False)}
+                                     'static': v.get('static', False), 'constexpr': v.get('constexpr', False)}
                     for b in v.get('bindings', []):
                         defs[b['id']] = {'init': None, 'writes': [], 'decl': i, 'name': b['name'], 'binding_of': v['id']}
         for i in self.all_ids():
@@ -271,7 +271,7 @@ class Fn:
     def single_def(self, var_id):
         """initialiser node of a local that has exactly one definition (its initialiser)"""
         d = self.defs.get(var_id)
-        if not d or d.get('param') or not d.get('init') or d.get('static'):
+        if not d or d.get('param') or not d.get('init') or (d.get('static') and not d.get('constexpr')):
             return None
         if d['writes'] or d.get('captured_byref'):
             return None
@@ -305,7 +305,12 @@ class Fn:
             return ('this',)
         if c == 'DeclRefExpr':
             dk = nd.get('dk')
-            if dk in ('local', 'binding') and inline:
+            if dk == 'static_local' and not inline:
+                # a constexpr static local is a named compile-time constant: always looked through
+                init = self.single_def(nd['d'])
+                if init:
+                    return self.term(init, inline, depth + 1)
+            if dk in ('local', 'binding', 'static_local') and inline:
                 init = self.single_def(nd['d'])
                 if init:
                     return self.term(init, inline, depth + 1)
